@@ -44,9 +44,18 @@ def who_may_write(chk, prog):
     sites = W.field_write_sites(prog, term["did"], fi)
     ok = True
     writers = set()
+    def base_allowed(fn):
+        return (fn["name"] in ("new_raw", "disconnect") and is_adt(fn.get("impl_self") or {}, "Terminal")) or (fn["name"] == "connect" and fn["kind"] == "Fn")
+    idx = W.callers_index(prog)
     for fn, kind, span in sites:
-        writers.add(fn["name"])
-        allowed = (fn["name"] in ("new_raw", "disconnect") and is_adt(fn.get("impl_self") or {}, "Terminal")) or (fn["name"] == "connect" and fn["kind"] == "Fn")
+        allowed = base_allowed(fn)
+        if allowed:
+            writers.add(fn["name"])
+        elif W.private_helper_of(prog, fn, base_allowed, idx):
+            # a private helper reachable only from the allowed writers is part of them
+            allowed = True
+            for c in idx.get(fn["did"], ()):
+                writers.add(prog.fns[c]["name"])
         if not allowed:
             chk.violation("C09.R1", "writer:" + fn["pretty"], "%s (%s) writes Terminal's partner link (%s); only the constructor, connect and disconnect may" % (fn["pretty"], loc(span), kind),
                           fn=fn["pretty"], file=loc(span))
